@@ -191,6 +191,31 @@ example : ∃ cls, adClauses ⟨0, [1, 2], some 5⟩ = .ok cls ∧ cls.length = 
   refine ⟨_, rfl, rfl, fun v => ?_⟩
   exact C09_clark_constraints v ⟨0, [1, 2], some 5⟩ 5 _ (by decide) rfl (by decide) rfl
 
+/-- **All models of the whole CNF**: for an acyclic store, `v` satisfies the completion iff every node variable has
+    the acyclic program's value under `v`'s own atom values and every AD constraint's clauses hold
+    (see `C09_clark_constraints` for what those say). -/
+theorem C09_clark_models (S : Store) (cnf : CNF) (hac : acyclic S = true) (h : clark S = .ok cnf)
+    (v : Nat → Bool) :
+    satCNF v cnf.clauses = true ↔
+      (∀ i : Nat, 1 ≤ i → i ≤ S.nodes.length → v i = dagEval S v (some (i : Int))) ∧
+      (∀ c ∈ S.ads, ∃ cls, adClauses c = .ok cls ∧ satCNF v cls = true) := by
+  obtain ⟨nc, ac, hcl, hnc, hadc, H⟩ := C09_clark_unique_cnf S cnf hac h
+  rw [hcl, satCNF_append, Bool.and_eq_true, H v v (fun _ _ _ _ _ _ => rfl), adClausesAll_sat v S ac hadc]
+
+example : ∃ cnf, clark exStore = .ok cnf ∧
+    satCNF (fun i => [false, true, false, true, true, false].getD i false) cnf.clauses = true :=
+  ⟨_, rfl, by decide⟩
+
+/-- Boundary of `C09_clark_node_iff`: the hypothesis "no constant-TRUE child" is needed. A store built with
+    `auto_compact=False` may hold `conj(0, 1)`; the completion then emits the literal `0` (clauses
+    `[2,0,-1] [-2,0] [-2,1]`; real code: same, and `to_dimacs` prints `-2 0 0`), and the clauses no longer say
+    `v 2 = (TRUE ∧ v 1)`. Stores produced by the engine / cycle breaking (auto_compact on) never contain such children
+    (`acyclic` excludes them). -/
+theorem C09_clark_node_iff_needs_no_true_child :
+    ∃ (v : Nat → Bool) (cls : List Clause), nodeClauses 2 (.conj [some 0, some 1] none) = .ok cls ∧
+      v 2 = [some 0, some 1].all (keyVal v) ∧ satCNF v cls = false :=
+  ⟨fun i => i != 0, _, rfl, by decide, by decide⟩
+
 /-- **Carry-over**: weights, names, constraints and the variable count are copied unchanged. -/
 theorem C09_clark_carry (S : Store) (cnf : CNF) (h : clark S = .ok cnf) :
     cnf.weights = S.weights ∧ cnf.names = S.names ∧ cnf.ads = S.ads ∧ cnf.atomcount = S.nodes.length := by
